@@ -207,6 +207,7 @@ class CandleManager:
                     volume=0,
                     timestamp=prev_candle.timestamp + timeframe,
                 )
+                fill_candle._filler = True
                 candles.insert(index, fill_candle)
 
             index += 1
